@@ -414,3 +414,15 @@ class SeekableSink(UserSink):
 class NonSeekableSink(UserSink):
     def seekable(self):
         return False
+
+
+class PipeLikeSink(NonSeekableSink):
+    """Non-seekable, but with seek/tell attributes (what the buffered writer
+    of a pipe looks like): seekable() is False, seek()/tell() raise."""
+
+    def seek(self, where, whence=0):
+        self._t.ev('dst.seek-on-pipe', t=self._tidx)
+        raise io.UnsupportedOperation('underlying stream is not seekable')
+
+    def tell(self):
+        raise io.UnsupportedOperation('underlying stream is not seekable')
